@@ -688,10 +688,11 @@ def responseNeedsDecompressor (cfg : Cfg) (t : Tx) : Nat × Bool :=
 /-- a separator of the Content-Encoding token list (get_token(.., ", ", ..)) -/
 def ceSep (b : UInt8) : Bool := b == 0x2c || b == 0x20
 
-/-- get_token: skip leading separators; none when nothing is left, else the token up to the next separator -/
-def getToken (input : Bytes) : Option Bytes :=
+/-- get_token: skip leading separators; none when nothing is left, else the number of separators skipped and the token up to the
+    next separator -/
+def getToken (input : Bytes) : Option (Nat × Bytes) :=
   let skipped := (input.takeWhile ceSep).length
-  if skipped ≥ input.length then none else some ((input.drop skipped).takeWhile (fun b => !ceSep b))
+  if skipped ≥ input.length then none else some (skipped, (input.drop skipped).takeWhile (fun b => !ceSep b))
 
 /-- the coding a token of a multi-valued Content-Encoding stands for (1 = none / unknown) -/
 def ceTokenType (tok : Bytes) : Nat :=
@@ -702,22 +703,23 @@ def ceTokenType (tok : Bytes) : Nat :=
 
 /-- the token loop of htp_tx_state_response_headers (slow path): the codings for which a decompressor is created, in order.
     `layers` counts every token when a limit is configured; lzma is only accepted among the first `lzmaLimit` tokens.
-    NOTE (mirrored quirk): the input advances by token length + 1 from where it was, not from where the token started. -/
+    The input advances past the skipped separators, the token and one separator (S40, repaired in /repo: it used to advance by
+    token length + 1 from where the pass started). -/
 def ceChainLoop (layerLimit lzmaLimit : Int) : Nat → Bytes → Int → Int → List Nat → List Nat
   | 0, _, _, _, acc => acc
   | fuel + 1, input, layers, nblzma, acc =>
     if input.isEmpty then acc else
     match getToken input with
     | none => acc
-    | some tok =>
+    | some (skipped, tok) =>
       let layers := if layerLimit != 0 then layers + 1 else layers
       if layerLimit != 0 && layers > layerLimit then acc else
       let nblzma := nblzma + 1
       let ty := ceTokenType tok
       if ty == 4 && nblzma > lzmaLimit then acc else
       let acc := if ty != 1 then acc ++ [ty] else acc
-      if tok.length + 1 ≥ input.length then acc
-      else ceChainLoop layerLimit lzmaLimit fuel (input.drop (tok.length + 1)) layers nblzma acc
+      if skipped + tok.length + 1 ≥ input.length then acc
+      else ceChainLoop layerLimit lzmaLimit fuel (input.drop (skipped + tok.length + 1)) layers nblzma acc
 
 def ceChain (cfg : Cfg) (value : Bytes) : List Nat := ceChainLoop cfg.layerLimit cfg.lzmaLayerLimit (value.length + 1) value 0 0 []
 
